@@ -2,7 +2,7 @@
    program's end nothing is alive and the whole event log is well bracketed; operations only
    change the variables they write; aliased arguments behave as if copied first. *)
 From Coq Require Import ZArith List Bool Arith Lia Permutation.
-From Life Require Import LifeSpec LifeModel LifeBase LifeLoops LifeArray LifeNode LifeSpecProofs LifeStep.
+From Life Require Import LifeSpec LifeModel LifeBase LifeLoops LifeArray LifeNode LifeSpecProofs LifeHint LifeSort LifeStep.
 Import ListNotations.
 
 (* ---- all histories ---- *)
@@ -207,4 +207,71 @@ Lemma ledger_accepts_every_prefix_proof nv ops st : run (init nv) ops = Ok st ->
 Proof.
   intros E. destruct (run_init_ok nv ops) as (st0 & E0 & IV & _). rewrite E in E0. inversion E0. subst st0.
   destruct (wf_led _ (inv_wf _ IV)) as (L & EL & Ll & Lb & _). exists L. auto.
+Qed.
+
+(* ---------------------------------------------------------------------------------------- *)
+(* third round                                                                                *)
+(* ---------------------------------------------------------------------------------------- *)
+(* what find returns is what the spec says: the first element with that key / value *)
+Lemma find_refines_spec_proof nv ops st x ka : run (init nv) ops = Ok st -> model_found st x ka = spec_found (abs st) x ka.
+Proof.
+  intros E. destruct (run_init_ok nv ops) as (st0 & E0 & IV & _). rewrite E in E0. inversion E0. subst st0.
+  unfold model_found, spec_found. rewrite sget_abs.
+  pose proof (marg_key_spec st ka IV) as MK. pose proof (marg_val_spec st ka IV) as MV.
+  destruct (getv (svars st) x) as [[a|n]|] eqn:G; cbn [option_map abs_cont]; [| |reflexivity].
+  - cbn [has_key]. destruct (marg_val (svars st) ka) as [r|]; [destruct MV as [MV _]|]; rewrite MV; [|reflexivity].
+    rewrite rarg_val_rval. f_equal. unfold asel. rewrite map_map. cbn [has_key snd oz]. reflexivity.
+  - destruct (inv_get st x _ IV G) as (_ & _ & WF). cbn [vwf] in WF.
+    assert (KV : has_key (ckind n) || has_val (ckind n) = true) by (destruct (ckind n); cbn in *; congruence).
+    assert (Ek : map (val (sw st)) (sel_ids (ckind n) (citems n)) = asel (ckind n) (map (abs_node (ckind n) (sw st)) (citems n))).
+    { apply sel_vals. exact KV. }
+    destruct (has_key (ckind n)).
+    + destruct (marg_key (svars st) ka) as [r|]; [destruct MK as [MK _]|]; rewrite MK; [|reflexivity].
+      rewrite rarg_val_rval, Ek. reflexivity.
+    + destruct (marg_val (svars st) ka) as [r|]; [destruct MV as [MV _]|]; rewrite MV; [|reflexivity].
+      rewrite rarg_val_rval, Ek. reflexivity.
+Qed.
+
+(* in every reachable state the position hint of Map / MultiMap::insert(position, key, value) changes
+   nothing of what happens to instances: same events, same result as insert(key, value) - outside the
+   one MultiMap case the spec leaves open *)
+Lemma hinted_insert_is_plain_proof nv ops st x n p kr vr :
+  run (init nv) ops = Ok st -> getv (svars st) x = Some (CN n) -> sorted (ckind n) = true ->
+  In kr (dom (heap (sw st))) ->
+  hint_tie (ckind n) (map (val (sw st)) (sel_ids (ckind n) (citems n))) (pos_idx p (length (citems n))) (val (sw st) kr) = false ->
+  nc_insert_hint n p kr vr (sw st) = nc_insert n PBack kr (VRef vr) (sw st).
+Proof.
+  intros E G SO Ik TIE.
+  destruct (run_init_ok nv ops) as (st0 & E0 & IV & SW & _). rewrite E in E0. inversion E0. subst st0.
+  destruct (inv_get st x _ IV G) as (H & _ & _). cbn [cids] in H.
+  pose proof (swf_get st x (CN n) SW G) as KO. cbn [abs_cont fst snd] in KO.
+  destruct (hint_reads n (sw st) H SO) as (Ek & _ & _). rewrite Ek in TIE.
+  apply nc_insert_hint_eq; auto.
+Qed.
+
+(* List::sort(): the container variables hold the very same instances afterwards, the live
+   instances are the same ones (nothing constructed stays, nothing stored is destroyed), and the
+   content is the sorted permutation of the old content *)
+Lemma sort_moves_payloads_only_proof nv ops st x st' :
+  run (init nv) ops = Ok st -> step st (OSort x) = Ok (true, st') ->
+  svars st' = svars st /\ Permutation (dom (heap (sw st'))) (dom (heap (sw st))) /\
+  exists l, sget (abs st) x = Some (KList, l) /\ sget (abs st') x = Some (KList, spec_sort l).
+Proof.
+  intros E E1.
+  destruct (run_init_ok nv ops) as (st0 & E0 & IV & SW & _). rewrite E in E0. inversion E0. subst st0.
+  destruct (step_ok st (OSort x) IV SW) as (b & st2 & E2 & _ & S2). rewrite E1 in E2. inversion E2. subst b st2.
+  cbn [step] in E1. unfold skip in E1.
+  destruct (getv (svars st) x) as [[a|n]|] eqn:G; try discriminate.
+  destruct (can_sort (ckind n)) eqn:CS; [|discriminate].
+  pose proof (can_sort_eq _ CS) as K.
+  destruct (inv_get st x _ IV G) as (H & _ & _). cbn [cids] in H.
+  destruct (nc_sort_ok n (sw st) (inv_wf _ IV) H K) as (w' & En & T & A).
+  unfold put in E1. rewrite (lift_ok CN _ _ _ _ En) in E1. inversion E1. subst st'. cbn [svars sw] in *.
+  split; [|split].
+  - apply set_at_same. apply getv_nth. exact G.
+  - apply meq_perm. eapply trans_same_dom. exact T.
+  - exists (nabs (sw st) n). cbn [spec_step] in S2. rewrite sget_abs, G in S2 |- *. cbn [option_map abs_cont] in S2 |- *.
+    fold (nabs (sw st) n) in S2 |- *. rewrite CS in S2. rewrite K in *. split; [reflexivity|].
+    injection S2 as S3. rewrite <- S3. apply sget_sset_same.
+    unfold abs. rewrite map_length. apply nth_error_Some. rewrite (getv_nth _ _ _ G). discriminate.
 Qed.
